@@ -176,6 +176,28 @@ def roundtrip(ck, prog, cfg):
             ck.oblige('C01.roundtrip.deposit_withdraw.%s.a%d' % (cfg, i), p, out > d[i], 'deposit then withdraw never pays out more than was put in', lemmas=lem)
 
 
+def direct_withdraw(ck, prog, cfg):
+    """the token-factory style WithdrawLiquidity{} message on a pool whose LP token is a cw20: whatever coin is attached, no LP was
+    received, so nothing may be paid out (and the pool's own locked LP must not be burned)."""
+    kinds = KIND_CFGS[cfg]
+    def body(it):
+        c = it.ctx
+        st = setup_pair(it, kinds)
+        common_inv(c, st)
+        nf = c.sym('n_funds', 8); 
+        funds = []
+        k = c.choose([nf == 0, nf == 1, nf == 2], 'funds')
+        for i in range(k):
+            d = Str(None, sym=c.sym('fund_denom%d' % i)); c.assume(d.ident() != Str('').ident())       # a coin always has a non-empty denom
+            funds.append(COIN(d, c.sym('fund_amount%d' % i, 128)))
+        it.extra = dict(st=st)
+        return enter(it, CP, 'execute', mk_env(it, 10**18), mk_info('anyone', funds), it.mkv(XM, 'WithdrawLiquidity'))
+    for p in ck.explore(prog, body, 'direct_withdraw.' + cfg):
+        ck.sample(dict(entry='pair.execute(WithdrawLiquidity{}) with a cw20 LP token', cfg=cfg, outcome=p.short()))
+        ck.oblige('C01.direct_withdraw.cw20_lp.' + cfg, p, p.ok, 'a direct WithdrawLiquidity{} on a pool with a cw20 LP token is refused whatever coins are attached (no LP was received)')
+        if not p.ok: ck.oblige('C01.direct_withdraw.no_write.' + cfg, p, len(p.world.writes) != 0, 'and writes nothing')
+
+
 def main():
     ck = Check('C01')
     prog = ck.program('terraswap_pair', 'white_whale_std')
@@ -191,6 +213,7 @@ def main():
         for cfg in cfgs: roundtrip(ck, prog, cfg)
     else:
         roundtrip(ck, prog, 'nc')
+    for cfg in cfgs[:2]: direct_withdraw(ck, prog, cfg)
     ck.bounds.update(assets='2 assets, kinds %s' % cfgs, lp='cw20 LP token', widths='all balances/amounts full u128; fee shares any valid 18-decimal triple',
                      induction='one step from an arbitrary state with pending fees <= balances; histories of any length follow by induction (argument in DESIGN.md)')
     ck.outside += ['token-factory LP tokens (features off)', 'stableswap pair type (see C03)']
